@@ -244,8 +244,12 @@ Definition docker_recs (inv : list container) (q : equery) (_ _ : Z) : list reco
 
 Definition all_label_caps : caps := {| c_label := fun _ => true; c_line := fun _ => false |}.
 
+(** the Docker storage evaluates every selector matcher itself, against the container's labels (the engine-made
+    label msg is not one of them): the engine does not evaluate them again on the records *)
+Definition selection_done (q : equery) : equery := {| q_sel := []; q_pipe := q_pipe q |}.
+
 Definition docker_metric (o : oracles) (inv : list container) (p : mparams) (e : mexpr) : option (list series) :=
-  eval_metric_on o all_label_caps (docker_recs inv) p e.
+  eval_metric_on o all_label_caps selection_done (docker_recs inv) p e.
 
 (** does any stream the evaluation could read carry a fault? (selection of every range aggregation / log selector) *)
 Fixpoint shape_of (e : mexpr) : shape :=
